@@ -229,7 +229,7 @@ theorem compact_neighbors_E (c : Cfg) (s : Engine) (hn : NoNodeTombs s.runs) (ho
     | some l => exact Or.inr ⟨l, l, rfl, rfl, List.Perm.refl _⟩
   | false =>
     obtain ⟨h1, _, _, h4⟩ := compact_fields c s he
-    unfold Engine.neighbors
+    rw [neighbors_eq]; unfold Engine.neighborsFlushed
     rw [h1, h4, outRuns_noNodeTombs n rel s.runs hn []]
     simp only [outRuns, List.contains_nil, Bool.false_eq_true, if_false, List.nil_append]
     have hold : s.segs.mapM (fun (g : Seg) => (g.neighbors n rel).map (·.filter (fun e => !blockedOut [] (allTombEdges s.runs) e))) =
@@ -267,7 +267,7 @@ theorem compact_incoming_E (c : Cfg) (s : Engine) (hn : NoNodeTombs s.runs) (how
     | some l => exact Or.inr ⟨l, l, rfl, rfl, List.Perm.refl _⟩
   | false =>
     obtain ⟨h1, _, _, h4⟩ := compact_fields c s he
-    unfold Engine.incoming
+    rw [incoming_eq]; unfold Engine.incomingFlushed
     rw [h1, h4, inRuns_noNodeTombs n rel s.runs hn []]
     simp only [inRuns, List.contains_nil, Bool.false_eq_true, if_false, List.nil_append]
     have hold : s.segs.mapM (fun (g : Seg) => (g.incomingG c.csrGuard n rel).map (·.filter (fun e => !blockedIn [] (allTombEdges s.runs) e))) =
